@@ -29,7 +29,7 @@ func init() {
 		cats := []string{"Forward", "Return", "NOC", "RefusedNOC", "DishonoredReturn", "DishonoredReturnContested"}
 		for i := 0; i < n; i++ {
 			fr := r.Fork(uint64(i))
-			o := gen.Opts{MaxBatches: 1 + i%4, MaxEntries: 1 + i%7, Categories: cats}
+			o := gen.Opts{IATCorrections: true, MaxBatches: 1 + i%4, MaxEntries: 1 + i%7, Categories: cats}
 			if i%5 == 0 {
 				o.SECs = []string{"ADV"}
 			} else if i%5 == 1 {
